@@ -60,6 +60,8 @@ class {n}:
   """doc of {n}"""
   def __init__(self, a=1, b=2):
     self.a, self.b = a, b
+  def extra(self, scale=1):
+    return ('extra', scale)
 ''',
     'cls_new': '''
 class {n}:
@@ -200,6 +202,10 @@ def gen(rng, tier):
            'duplicate_after_stray_exit']),
                   'n': i,
                   'target': 'T%d' % rng.randint(0, i)})
+    elif r < 0.62 and r >= 0.55:
+      # a dynamic-registration text configures a (not registered) method of a
+      # registered class, which makes gin register the class once more
+      ops.append({'op': 'dyn_method', 'target': 'T%d' % rng.randint(0, i)})
     elif r < 0.55:
       ops.append({'op': 'interactive', 'target': 'T%d' % rng.randint(0, i),
                   'raises': rng.random() < 0.5,
@@ -523,6 +529,57 @@ def run(case):
         v('C13.rejection_atomic', [kind],
           'after the rejected registration (%s) the registry answers '
           'differently for %r' % (kind, changed))
+    elif k == 'dyn_method':
+      t = registered.get(op['target'])
+      if t is None or t['shape'] != 'cls_init' or \
+          t['api'] not in ('register', 'external'):
+        continue
+      name = op['target']
+      obj = t['obj']
+      before_vars = dict(vars(obj))
+      exc = None
+      try:
+        gin.parse_config(['from __gin__ import dynamic_registration',
+                          'import %s as dm' % MOD,
+                          'dm.%s.extra.scale = 3' % name])
+      except Exception as e:  # pylint: disable=broad-except
+        exc = e
+      log.add('dyn_method', name, type(exc).__name__ if exc else None)
+      if exc is not None:
+        v('C13.registration_accepted', ['dyn_method', type(exc).__name__],
+          'configuring %s.extra through dynamic registration raised %s: %s' %
+          (name, type(exc).__name__, probes.scrub(str(exc))[:300]))
+        continue
+      after_vars = dict(vars(obj))
+      changed = sorted(set(after_vars) ^ set(before_vars)) or [
+          x for x in before_vars if after_vars.get(x) is not before_vars[x]
+          and x not in ('__dict__', '__weakref__')]
+      if changed:
+        v('C13.original_untouched', ['cls_init', t['api'], 'dyn-method-vars'],
+          '%s (registered with %s): class attributes %r changed when a '
+          'dynamic-registration text configured its method `extra`' %
+          (name, t['api'], changed))
+      try:
+        direct = call_result(obj, 'cls_init')
+        want = call_result(t['twin'], 'cls_init')
+        if direct != want:
+          v('C13.original_untouched', ['cls_init', t['api'], 'dyn-method-call'],
+            '%s: after a dynamic-registration text configured its method, a '
+            'direct call of the original gives %r, the untouched twin %r' %
+            (name, direct, want))
+        if obj().extra() != ('extra', 1):
+          v('C13.original_untouched', ['cls_init', t['api'], 'dyn-method-meth'],
+            '%s: the original class\'s own method received an injected value: '
+            '%r' % (name, obj().extra()))
+        inst = gin.get_configurable(obj)()
+        if inst.extra() != ('extra', 3):
+          v('C13.registry_version_configured', ['dyn-method'],
+            '%s: the registry\'s version does not apply extra.scale = 3: %r' %
+            (name, inst.extra()))
+      except Exception as e:  # pylint: disable=broad-except
+        v('C13.original_untouched', ['cls_init', t['api'], type(e).__name__],
+          '%s: calls after the dynamic method configuration raised %r' %
+          (name, e))
     elif k == 'interactive':
       if op['target'] not in registered:
         continue
